@@ -25,12 +25,25 @@ def value_of_call_stores(cfg, call_nodes, memo, selfname):
         if isinstance(v, ast.Name):
             if rd is None:
                 rd = cfg.reaching_defs()
-            defs = rd.get(s, {}).get(v.id, frozenset())
-            ok = bool(defs)
-            for d in defs:
-                if d == "param" or d.kind != "store" or id(d.meta.get("value")) not in call_asts:
-                    ok = False
-            if ok:
+            def carries(node, name, seen):
+                """every definition of `name` reaching `node` is the call's value, or a call handed that same local
+                (`result = convert(result, ...)`: still the one value execute returned, converted)"""
+                defs = rd.get(node, {}).get(name, frozenset())
+                if not defs:
+                    return False
+                for d in defs:
+                    if d == "param" or d.kind != "store":
+                        return False
+                    dv = d.meta.get("value")
+                    if id(dv) in call_asts:
+                        continue
+                    if isinstance(dv, ast.Call) and any(isinstance(a, ast.Name) and a.id == name for a in dv.args) and id(d) not in seen:
+                        if carries(d, name, seen | {id(d)}):
+                            continue
+                    return False
+                return True
+
+            if carries(s, v.id, frozenset()):
                 good.append(s)
     return good, stores
 
@@ -555,6 +568,18 @@ def rule_j(ctx, idx, A):
                 guard = up.test
                 break
             q = up
+        if guard is None:
+            # early-exit form: `if not isinstance(x, (list, tuple)): yield x; continue` ahead of the descent in the same block
+            q = rc
+            while id(q) in par and guard is None:
+                up = par[id(q)]
+                for fld in ("body", "orelse"):
+                    blk = getattr(up, fld, None)
+                    if isinstance(blk, list) and q in blk:
+                        for prev in blk[:blk.index(q)]:
+                            if isinstance(prev, ast.If) and not prev.orelse and prev.body and isinstance(prev.body[-1], (ast.Continue, ast.Return, ast.Raise)):
+                                guard = ast.copy_location(ast.UnaryOp(op=ast.Not(), operand=prev.test), prev.test)
+                q = up
         n += 1
         if guard is None:
             ctx.violate("C01.j", con, K.rel(fl), rc.lineno, "flatten calls itself on every element without a test: a number raises TypeError, a string recurses forever")
@@ -580,8 +605,17 @@ def rule_j(ctx, idx, A):
                     texty = K.src(t)
                 else:
                     unknown = K.src(t)
+            elif not neg and isinstance(t, ast.Call) and isinstance(t.func, ast.Name) and len(t.args) == 1 and not t.keywords:
+                # a predicate helper of the module: what it answers for a text value is read off its body
+                verdict = _predicate_on_text(idx, fl, t.func.id, TEXTY, SAFE)
+                if verdict is False:
+                    excluded = True
+                elif verdict is None:
+                    unknown = K.src(t)
             elif not neg:
                 unknown = K.src(t)
+        if texty and not excluded and unknown:
+            raise AnalysisError("C01.j: flatten descends under `%s` and `%s`; cannot decide whether text satisfies the second" % (texty, unknown))
         if texty and not excluded:
             ctx.violate("C01.j", con, K.rel(fl), guard.lineno, "flatten descends into whatever satisfies `%s`, which a string does: a one-character string iterates to itself, so a text element of a list argument recurses until RecursionError - Program.run dies while looking for references and no command executes" % texty)
         elif unknown:
@@ -589,6 +623,45 @@ def rule_j(ctx, idx, A):
         else:
             ctx.hold("C01.j", con, K.rel(fl), guard.lineno, "flatten descends into non-text containers only (`%s`)" % K.src(guard)[:60])
     ctx.count("flatten_recursive_calls", n)
+
+
+def _predicate_on_text(idx, fl, name, TEXTY, SAFE):
+    """What a one-parameter module-level predicate returns for a str: True / False, None when its body does not say.
+    Read statement by statement: `if isinstance(p, T): return <const>` - a str is an instance of T when T names a text
+    type, is not when every name in T is a concrete non-text container; anything else before a decision is undecided."""
+    fn = next((f for f in idx.funcs if f.module is fl.module and f.name == name and f.parent is None), None)
+    if fn is None:
+        return None
+    node = getattr(fn, "node_orig", None) or fn.node
+    if len(node.args.args) != 1:
+        return None
+    pn = node.args.args[0].arg
+    STR = {"builtins.str", "six.string_types", "six.text_type"}
+
+    def quals_of(e):
+        if isinstance(e, (ast.Tuple, ast.List)):
+            out = set()
+            for x in e.elts:
+                out |= quals_of(x)
+            return out
+        if isinstance(e, ast.BinOp) and isinstance(e.op, ast.Add):
+            return quals_of(e.left) | quals_of(e.right)
+        return {idx.qualname(fn.module, e, fn) or K.src(e)}
+
+    for st in node.body:
+        if isinstance(st, ast.Expr) and isinstance(st.value, ast.Constant):
+            continue
+        if isinstance(st, ast.If) and not st.orelse and len(st.body) == 1 and isinstance(st.body[0], ast.Return) and isinstance(st.body[0].value, ast.Constant) \
+                and isinstance(st.test, ast.Call) and isinstance(st.test.func, ast.Name) and st.test.func.id == "isinstance" and len(st.test.args) == 2 \
+                and isinstance(st.test.args[0], ast.Name) and st.test.args[0].id == pn:
+            qs = quals_of(st.test.args[1])
+            if qs & STR:
+                return bool(st.body[0].value.value)
+            if qs <= SAFE:
+                continue
+            return None
+        return None
+    return None
 
 
 def run(ctx, idx):
